@@ -351,3 +351,20 @@ Proof.
   - eapply Inv_ext; [exact Hiff|exact I].
   - constructor; try apply M. intros j Hj. apply Hiff. apply (mo_passed _ _ _ M). exact Hj.
 Qed.
+
+(** ** two corollaries in the words of the property *)
+
+Lemma reach_set_below_end o ops s rs idx : o mod 64 = 0 ->
+  run (NewTailBitmap o) ops = Some (s, rs) -> In (OSet idx) ops ->
+  idx < tb_end (Offset s) (Words s).
+Proof.
+  intros Ho E Hin. apply (ti_end _ _ _ _ (reach_TInv o ops s rs Ho E)). exact Hin.
+Qed.
+
+Lemma reach_no_panic o ops s rs : o mod 64 = 0 ->
+  run (NewTailBitmap o) ops = Some (s, rs) ->
+  forall p, (forall j, p = OGet j \/ p = OGet1 j -> j < tb_end (Offset s) (Words s)) ->
+  step s p <> None.
+Proof.
+  intros Ho E p Hp. eapply step_total; [eapply reach_Inv; eassumption|exact Hp].
+Qed.
